@@ -28,7 +28,9 @@ func VerifC20Hook() {
 	for i := 1; i < K; i++ {
 		hook[i] = vArg("arg", nlens)
 	}
-	link := verifrt.Bytes("link", verifrt.Choice("linklen", verifrt.Param("link", 3)+1))
+	// the link may itself look like a placeholder: lengths 4, 8, 9 and 10 are included
+	linkLens := []int{0, 1, 2, 4, 8, 9, 10}
+	link := verifrt.Bytes("link", linkLens[verifrt.Choice("linklen", verifrt.Param("linklens", len(linkLens)))])
 	mt := &mime.MediaType{
 		Essence:   verifrt.Bytes("essence", 3),
 		Supertype: verifrt.Bytes("super", 1),
@@ -36,10 +38,12 @@ func VerifC20Hook() {
 	}
 	symbolic := verifrt.Symbolic()
 	prog := hook[0]
-	// exec cannot pass NUL bytes (argv strings are C strings)
+	// links reach the UI sanitised (GetString / attribute scrubbing): printable
+	// ASCII including space, quotes, dashes, '$', '(' and '%'
 	for i := 0; i < len(link); i++ {
-		verifrt.Assume(link[i] != 0)
+		verifrt.Assume(link[i] >= 0x20 && link[i] < 0x7f)
 	}
+	// exec cannot pass NUL bytes (argv strings are C strings)
 	for _, a := range hook[1:] {
 		for i := 0; i < len(a); i++ {
 			verifrt.Assume(a[i] != 0)
